@@ -542,6 +542,11 @@ func runC15(r *vf.Runner) {
 		{{Op: "create"}, {Op: "write", N: 10}, {Op: "write", N: 5000}, {Op: "commit", Rec: 3}, {Op: "open", N: 9}, {Op: "discard"}, {Op: "open"}},
 		{{Op: "create"}, {Op: "write", N: 10}, {Op: "commit", Rec: 1}, {Op: "create"}, {Op: "write", N: 20}, {Op: "commit", Rec: 2}, {Op: "open"}, {Op: "stat"}},
 		{{Op: "create"}, {Op: "commit", Rec: 0}, {Op: "open"}, {Op: "stat"}},
+		// several partitions of one task: discarding one leaves the others as they were
+		{{Op: "create"}, {Op: "create", Part: 1}, {Op: "create", Part: 2}, {Op: "write", N: 10}, {Op: "write", N: 20, Part: 1}, {Op: "write", N: 30, Part: 2},
+			{Op: "commit", Rec: 1}, {Op: "commit", Rec: 2, Part: 1}, {Op: "commit", Rec: 3, Part: 2}, {Op: "discard", Part: 2}, {Op: "open"}, {Op: "stat", Part: 1}, {Op: "open", Part: 1, N: 4}, {Op: "open", Part: 2},
+			{Op: "discard"}, {Op: "open", Part: 1}, {Op: "stat"}},
+		{{Op: "create", Part: 1}, {Op: "create"}, {Op: "write", N: 8, Part: 1}, {Op: "write", N: 9}, {Op: "commit", Rec: 2, Part: 1}, {Op: "commit", Rec: 1}, {Op: "discard", Part: 1}, {Op: "stat"}, {Op: "open"}, {Op: "open", Part: 1}},
 		// two writers open for the same partition, both commit: every commit that reports success
 		// must be what readers then see
 		{{Op: "create"}, {Op: "create", W: 1}, {Op: "write", N: 10}, {Op: "write", N: 20, W: 1}, {Op: "commit", Rec: 1}, {Op: "open"}, {Op: "commit", Rec: 2, W: 1}, {Op: "open"}, {Op: "stat"}, {Op: "open", N: 15}},
